@@ -110,8 +110,9 @@ def plans(prop, tier):
     kinds = ('thread', 'process', 'remote')
     if prop == 'C01':
         for k in kinds:
-            for e in ('ret', 'exc', 'bexc', 'unreb'):
+            for e in ('ret', 'exc', 'bexc', 'unreb', 'unreb2', 'badret'):
                 P.append((k, False, e, 0, ('pause',) if e in ('ret', 'exc') else ()))
+            P.append((k, False, 'slow', 0, (), None, 'poll'))
             P.append((k, True, 'ret', 2, ('pause',)))
         for k in ('process', 'remote'):
             P.append((k, False, 'ret', 0, ('sigkill', 'sigterm')))
@@ -122,16 +123,19 @@ def plans(prop, tier):
             P.append((k, False, 'ret', 0, ('pause',)))
             P.append((k, False, 'exc', 0, ('pause',)))
             P.append((k, True, 'ret', 2, ('pause',)))
+            P.append((k, False, 'slowfin', 0, ('pause',), None, 'slowfin'))     # a finally block that needs 1.5 s of the timeout
     elif prop == 'C06':
         for k in kinds:
             for items in ((0, 2) if tier == 'quick' else (0, 1, 2, 3, 5)):
                 P.append((k, True, 'ret', items, ('pause',) + (('sigkill',) if k != 'thread' else ())))
             P.append((k, True, 'exc', 4, ()))
+            P.append((k, True, 'ret', 2, ('pause', 'sigkill') if k != 'thread' else ('pause',), 'blocked'))
     elif prop == 'C16':
         for k in kinds:
             P.append((k, False, 'ret', 0, ('pause',)))
-            P.append((k, False, 'exc', 0, ()))
+            P.append((k, False, 'exc', 0, ('pause',) if k == 'process' else ()))
             P.append((k, True, 'ret', 2, ('pause',)))
+            P.append((k, False, 'ret', 0, (), None, 'us_none'))        # init_state 5, last value assigned in the child: None
     return P
 
 
@@ -165,10 +169,17 @@ def run(prop, tier, replay=None):
         allowed = model_runs(prop, tier, ev)
         pl = plans(prop, tier)
         sf = prop == 'C16'
-        base_cases = [{'kind': k, 'persistent': p, 'ending': e, 'items': it, 'fault': 'none', 'stateful': sf} for (k, p, e, it, f) in pl]
+        pl = [(x + (None, None))[:7] for x in pl]
+        base_cases = [{'kind': k, 'persistent': p, 'ending': e, 'items': it, 'fault': 'none', 'stateful': sf, 'consumer': c, 'observe': o}
+                      for (k, p, e, it, f, c, o) in pl]
+        for bc in base_cases:
+            if bc['observe'] == 'slowfin':
+                bc['observe'] = None
+            if bc['observe'] == 'us_none':
+                bc.update(observe=None, us_none=True, init_state=5)
         base = farm.run(base_cases)
         cases = []
-        for (k, p, e, it, faults), b in zip(pl, base):
+        for (k, p, e, it, faults, cons, obsmode), b in zip(pl, base):
             if 'error' in b:
                 raise MachineryError('baseline run failed: %s' % b['error'])
             events = b.get('events') or []
@@ -179,8 +190,18 @@ def run(prop, tier, replay=None):
                 pts = pick_points(events, tier, rng, dense)
                 if f in ('sigkill', 'sigterm') and tier == 'quick':
                     pts = pts[::3]
+                if cons and tier == 'quick':
+                    pts = pts[::2]
+                extra = {}
+                if obsmode == 'slowfin':
+                    # land inside the try body of the target; the caller grants 6 s (4 s on the remote side)
+                    from ..lifeharness import target_region
+                    inside = [i for i, ev_ in enumerate(events, 1) if ev_[0] == 'targets.py' and ev_[1] == 't_slowfin'
+                              and target_region('t_slowfin', ev_[2]) == 'try']
+                    pts = inside[1:2] + (inside[3:4] if tier == 'thorough' else [])
+                    extra = {'term_timeout': 6, 'remote_timeout': 4}
                 for n in pts:
-                    cases.append({'kind': k, 'persistent': p, 'ending': e, 'items': it, 'fault': f, 'n': n, 'stateful': sf})
+                    cases.append(dict({'kind': k, 'persistent': p, 'ending': e, 'items': it, 'fault': f, 'n': n, 'stateful': sf, 'consumer': cons}, **extra))
         if prop == 'C01':
             for k in ('process', 'remote'):
                 cases.append({'kind': k, 'persistent': False, 'ending': 'big', 'items': 0, 'fault': 'bigkill'})
